@@ -16,7 +16,7 @@ from ..guards import RoleEval, simulate, weak_orders
 from ..pm import AnalysisError, unparse
 from ..report import Check
 from ..sym import Resolver, Term, path_of, show, walk
-from .common import (body_entry, cmp_normal, const_value, is_path, iter_base, iter_precedes, loc, loops_over,
+from .common import (body_entry, cmp_normal, const_value, early_exits, is_path, iter_base, iter_precedes, loc, loops_over,
                      method_calls_on, strip)
 
 EXPLANATION = (
@@ -31,7 +31,7 @@ ASSUMPTIONS = [
     "scalar activation degrees (batches are rejected by the O-vec rule for every method but General)",
     "heapq is a min-heap over tuples compared lexicographically; operator.lt/le/eq/ne/ge/gt have their Python meaning",
 ]
-FLOORS = {"O-dea": 7, "O-seq": 7, "P2": 14, "O-vec": 6, "G": 9, "K1": 2, "T3": 6, "U1": 1, "DIR": 7}
+FLOORS = {"O-all": 7, "O-dea": 7, "O-seq": 7, "P2": 14, "O-vec": 6, "G": 9, "K1": 2, "T3": 6, "U1": 1, "DIR": 7}
 
 VECTOR_INCAPABLE = ["First", "Last", "Highest", "Lowest", "Proportional", "Threshold"]
 
@@ -209,7 +209,11 @@ def common_rules(a: Activate) -> None:
     want_dir = "reverse" if a.cls == "Last" else "forward"
     check.require(a.direction == want_dir, "DIR", a.construct("iteration"),
                   f"rules are visited in {a.direction} insertion order (specified: {want_dir})", loc(fn, head))
-    # every rule of the block is visited: the loop ranges over the whole list (iter_base saw no slicing)
+    # every rule of the block is visited: the loop ranges over the whole list (iter_base saw no slicing) and is never left early
+    ee = early_exits(cfg, head)
+    check.require(not ee, "O-all", a.construct("all-rules"),
+                  "the activation degree of every rule of the block is computed (the loop over the rules is never left early)" if not ee else
+                  f"the loop over the rules is left early at line {ee[0].lineno}: later rules keep stale activation degrees / are never considered", loc(fn, ee[0] if ee else head))
     deact = method_calls_on(r, a.is_rule, "deactivate", body)
     awith = method_calls_on(r, a.is_rule, "activate_with", body)
     loaded = method_calls_on(r, a.is_rule, "is_loaded", body)
@@ -291,8 +295,77 @@ def first_last(a: Activate) -> None:
 
 
 # ------------------------------------------------------------------------------------- Highest / Lowest
+def _key_shape(a: "Activate", key: Term) -> tuple[str, str] | None:
+    """('+d'|'-d', '+i'|'-i') for a 2-tuple key over (degree, insertion index); None if it is something else."""
+    if key[0] != "tuple" or len(key[1]) != 2:
+        return None
+    k0, k1 = key[1]
+    if a.is_degree(k0):
+        d = "+d"
+    elif k0[0] == "unop" and k0[1] == "-" and a.is_degree(k0[2]):
+        d = "-d"
+    else:
+        return None
+
+    def is_index(t: Term) -> bool:
+        return t[0] == "index" and is_path(iter_base(t[1])[0], a.rules_path)
+
+    if is_index(k1):
+        i = "+i"
+    elif k1[0] == "unop" and k1[1] == "-" and is_index(k1[2]):
+        i = "-i"
+    else:
+        return None
+    return d, i
+
+
+def bounded_heap(a: "Activate") -> bool:
+    """Selection kept in a heap of at most n entries (push while not full, otherwise replace the worst retained entry).
+
+    In such an eviction heap the top must be the *worst* retained candidate, i.e. the minimum of the key. "Better" for
+    Highest means larger degree, then smaller index; so the key must be (degree, -index) [Highest] / (-degree, -index) [Lowest].
+    Returns True when the idiom was recognised (and judged)."""
+    r, cfg, check, fn = a.r, a.cfg, a.check, a.fn
+    repl = [(n, c) for n, c in cfg.find_calls("heapreplace") + cfg.find_calls("heappushpop") if n in a.body]
+    pushes = [(n, c) for n, c in cfg.find_calls("heappush") if n in a.body]
+    if not repl:
+        return False
+    want = ("+d", "-i") if a.cls == "Highest" else ("-d", "-i")
+    keys = [(n, r.term(c.args[1], n)) for n, c in pushes + repl if len(c.args) == 2]
+    shapes = [(n, _key_shape(a, k), k) for n, k in keys]
+    bad = [(n, sh, k) for n, sh, k in shapes if sh != want]
+    what = {"Highest": "(degree, -index)", "Lowest": "(-degree, -index)"}[a.cls]
+    check.require(not bad and bool(shapes), "K1", a.construct("heap-key"),
+                  f"bounded heap keeps the best n: its key is {what}, so the entry evicted first is the worst one (smallest degree, latest on ties)"
+                  if not bad else f"bounded heap with key {show(bad[0][2])}: the entry at the top (evicted first) must be the worst retained one, which needs the key "
+                  f"{what}; with this key ties are evicted in the wrong order (the earliest of equal degrees is dropped)",
+                  loc(fn, (bad or shapes)[0][0]))
+    # push iff the heap is not full; replace only when the candidate is strictly better than the top
+    if isinstance(pushes[0][1].args[0], ast.Name) if pushes else False:
+        a.heap_names = {pushes[0][1].args[0].id}
+    for n, c in repl:
+        gs = [(r.term(g, gn), pol) for g, pol, gn in cfg.must_guards(n) if gn in a.body]
+        strict = False
+        for gt, pol in gs:
+            for s_ in walk(gt):
+                if s_[0] == "cmp" and len(s_[1]) == 1 and pol:
+                    l, op, rr = s_[2][0], s_[1][0], s_[2][1]
+                    top = lambda z: z[0] == "sub" and const_value(z[2]) == 0 and z[1][0] == "sub" and const_value(z[1][2]) == 0  # noqa: E731
+                    cand = a.is_degree(l) or (l[0] == "unop" and a.is_degree(l[2]))
+                    if cand and top(rr) and op == ">":
+                        strict = True
+                    if cand and top(rr) and op == ">=":
+                        strict = False
+        check.require(strict, "G", a.construct("evict"), "a candidate replaces the worst retained entry only when it is strictly better (equal degrees keep the earlier rule)"
+                      if strict else "the eviction test is not a strict comparison of the candidate with the heap top", loc(fn, n))
+    check.notes.append(f"{a.cls}.activate uses a bounded eviction heap; selection size and trigger loop are not modelled beyond the key and eviction rules")
+    return True
+
+
 def highest_lowest(a: Activate) -> None:
     r, cfg, check, fn = a.r, a.cfg, a.check, a.fn
+    if bounded_heap(a):
+        return
     pushes = [(n, c) for n, c in cfg.find_calls("heappush") if n in a.body]
     pops = cfg.find_calls("heappop")
     if len(pushes) != 1 or len(pops) != 1:
